@@ -188,30 +188,24 @@ class _GridUFuncSignature:
         identical, the signatures must not be equivalent. Axes positions do have to match exactly.
         """
 
-        def set_unique_inds(sig_part):
-            return set([i for arg in sig_part for i in arg])
+        def canonical(sig):
+            # number the dummy names in order of first appearance, left to right
+            numbering: Dict[str, int] = {}
 
-        all_unique_sig1_indices = set_unique_inds(self.in_ax_names) | set_unique_inds(
-            self.out_ax_names
-        )
-        all_unique_sig2_indices = set_unique_inds(other.in_ax_names) | set_unique_inds(
-            other.out_ax_names
-        )
+            def number(sig_part):
+                return [
+                    tuple(numbering.setdefault(name, len(numbering)) for name in arg)
+                    for arg in sig_part
+                ]
 
-        if len(all_unique_sig1_indices) != len(all_unique_sig2_indices):
-            return False
+            return (
+                number(sig.in_ax_names),
+                [tuple(arg) for arg in sig.in_ax_positions],
+                number(sig.out_ax_names),
+                [tuple(arg) for arg in sig.out_ax_positions],
+            )
 
-        sig1_replaced = str(self)
-        sig2_replaced = str(other)
-        for dummy1, dummy2, common_replacement in zip(
-            all_unique_sig1_indices,
-            all_unique_sig2_indices,
-            self._REPLACEMENT_DUMMY_INDEX_NAMES,
-        ):
-            sig1_replaced = sig1_replaced.replace(dummy1, common_replacement)
-            sig2_replaced = sig2_replaced.replace(dummy2, common_replacement)
-
-        return sig1_replaced == sig2_replaced
+        return canonical(self) == canonical(other)
 
 
 def _split_axis_name_position_pairs(arg: str) -> Tuple[Tuple[str, ...], Tuple[str, ...]]:
